@@ -67,6 +67,16 @@ def guards_of(body):
                     cur = cur + _conj(e["cond"], True)
                 if st.get("k") == "local" and st.get("else") is not None and st.get("init") is not None:
                     cur = cur + [("pat", (st["init"], sir.pat_str(st["pat"])), True)]
+                # `let x = match e { Some(v) => .., None => return }` / a match statement with diverging arms: what follows runs
+                # only for the arms that come back
+                mt = st.get("init") if st.get("k") == "local" and st.get("init") is not None else e
+                if mt is not None and mt.get("k") == "match" and all(a.get("guard") is None for a in mt["arms"]):
+                    div = [a for a in mt["arms"] if _diverges(a["body"])]
+                    back = [a for a in mt["arms"] if not _diverges(a["body"])]
+                    if div and len(back) == 1:
+                        cur = cur + [("pat", (mt["e"], sir.pat_str(back[0]["pat"])), True)]
+                    elif len(div) == 1 and back:
+                        cur = cur + [("pat", (mt["e"], sir.pat_str(div[0]["pat"])), False)]
             return
         if k == "if":
             c = n["cond"]
